@@ -8,6 +8,47 @@ VERIF = os.path.dirname(os.path.dirname(os.path.abspath(__file__)))
 
 # property -> (technique, level text, level note, design ref)
 CLAIMED = {
+    'C05': (
+        'Hypothesis-generated object-model trees: to_bytes -> from_bytes; '
+        'oracle = model-decided serialisability, reference serializer, own '
+        'snapshot equality after the documented normalisation',
+        'Trees built only through the public constructors and typed '
+        'attributes (every documented attribute set or unset, 11 codecs, '
+        'empty/absent contents) must serialise iff the model says so, to '
+        'exactly the canonical bytes, and parse back to the same tree after '
+        'the documented normalisation only (own recursive snapshot, never '
+        'the library\'s __eq__).',
+        'Trusted: dxv/trees.py (program_of, expected_snapshot), dxv/spec.py.',
+        'DESIGN.md section 5 C05'),
+    'C06': (
+        'Hypothesis round trips parse -> serialise on canonical files '
+        '(writer programs, trees) and on foreign files; oracle = byte '
+        'identity / same contents + fixed point; acceptance predicted by '
+        'the model',
+        'Files produced by the streaming writer and by to_bytes must come '
+        'back byte-identical from from_bytes().to_bytes(); foreign '
+        'well-formed files the model says the object model can hold must '
+        'be accepted, re-serialise without error with the same section '
+        'contents, and a second pass must change nothing.',
+        'Trusted: dxv/foreign.py. Foreign files with a present-but-empty '
+        'metadata object or unknown options are outside the quantifier '
+        '(documented in the evidence).',
+        'DESIGN.md section 5 C06'),
+    'C18': (
+        'Hypothesis rule-based state machine over several live trees with '
+        'shared reader/writer objects; oracle = snapshot invariants after '
+        'every step + identity walk for shared mutables',
+        'Random interleavings (<=40 steps) of constructing, add_change/'
+        'add_file, typed assignment, in-place mutation of meta/options, '
+        'serialising (to_bytes and a reused DiffXDOMWriter, twice each), '
+        'parsing (from_bytes and a reused DiffXDOMReader), generate_stats, '
+        '==/!=, repr over up to 4 live trees; after every step every tree '
+        'not operated on must be unchanged, observers must not change '
+        'their operands, repeated serialisation must be identical and no '
+        'dict/list may be reachable from two sections.',
+        'Trusted: dxv/trees.py snapshot. Arguments are deep-copied by the '
+        'harness so any aliasing is the library\'s.',
+        'DESIGN.md section 5 C18'),
     'C07': (
         'Hypothesis-generated files x every truncation point x a catalogue '
         'of length perturbations per content header; oracle = '
